@@ -22,7 +22,7 @@ T = lambda text, nan=False, sep=False: (text, nan, sep)  # noqa: E731
 FULL = [T('one'), T('twenty'), T('first'), T('zero'), T('and'), T('point'), T('the'), T('of'), T(','), T('.'), T('-'), T(' '),
         T('one', nan=True), T('one', sep=True), T('the', sep=True)]
 CORE = [T('one'), T('twenty'), T('first'), T('and'), T('the'), T(','), T('.')]
-HOLD = [T('twenty'), T('first'), T('the'), T(',')]
+HOLD = [T('twenty'), T('first'), T('and'), T('the'), T(',')]   # a held number of three tokens ('twenty and first') is what it takes to shift later spans out of range
 
 
 def show(script):
